@@ -377,6 +377,11 @@ SNIPS = [
     "{% do f() %}{% do o.m(1) %}", "{% for x in xs %}{% if loop.index == 2 %}{% break %}{% endif %}{{ x.a }}{% endfor %}",
     "{% for x in it if x %}{% if x == 1 %}{% continue %}{% endif %}{{ x }}{{ f() }}{% endfor %}",
     "{% trans v=s %}v={{ v }}{% endtrans %}{% trans n=o.n %}{{ n }} one{% pluralize %}{{ n }} many{% endtrans %}", "{{ _(s|string) }}{{ gettext('x') ~ s }}",
+    # loops whose iterable expression is itself a data event (attribute / item / call), with and without a loop filter,
+    # extended and recursive
+    "{% for x in o.b.c if x %}{{ x }}{% endfor %}", "{% for x in f() if x != 'z' %}{{ x }}{{ loop.index }}{% endfor %}",
+    "{% for x in o['k'] %}{{ x }}{% else %}E{% endfor %}", "{% for x in o.m(1) if x recursive %}{{ x }}{% endfor %}",
+    "{% for x in (xs|list) if x.a %}{{ x.n }}{% endfor %}", "{% for x in r.a if f() %}{{ x }}{{ loop.last }}{% endfor %}",
     "{% for x in xs %}{{ x.a }}{{ loop.index }}{{ loop.length }}{% endfor %}",
     "{% for x in it %}{{ x }}{{ loop.last }}{% endfor %}",
     "{% for x in xs if x.a %}[{{ x.n }}]{% endfor %}",
@@ -648,7 +653,7 @@ def run(ctx):
     # ---------------- K / O: fault injection
     reader = StackReader(recs, src_dir)
     loop = asyncio.new_event_loop()
-    n_templates = ctx.size(160, 1200)
+    n_templates = ctx.size(85, 900)
     pending = []          # (case, cls_code, stack, real, fired_kind, exc_cls)
     try:
         for ti in range(n_templates):
@@ -871,8 +876,8 @@ def inject_all(ctx, jinja2, reader, loop, templates, cfg, pending, thorough_clas
             pending.append((case, cls_code, stack, real, ekind, exc_cls))
             # ---- the engine stays usable after a render that raised (a swallowed signal is a successful render
             # with an undefined value in it: a module cache filled by it legitimately keeps that value)
-            if rk != "exc":
-                continue
+            if rk != "exc" or rv is not exc:
+                continue        # also when the render failed later on an undefined a swallowed signal left behind
             w2 = World()
             k2, again = render_once(engine, "main.html", cfg, w2, async_data, loop)
             again = again if k2 == "ok" else "EXC:" + type(again).__name__
